@@ -160,12 +160,37 @@ def evaluate(workdir, results, tag='cases', count_branches=False):
     return mm, ff
 
 
+LAST_HARNESS_LOG = ['']   # output of the last failed harness invocation (run_specs has no other way to hand it back)
+
+
+def setup_error(log):
+    """(call, err) of a HARNESS-SETUP-ERROR line: a set-up call of the real code failed while the harness built its world"""
+    import re
+    m = re.search(r'HARNESS-SETUP-ERROR call="((?:[^"\\]|\\.)*)" err="((?:[^"\\]|\\.)*)"', log or '')
+    return (m.group(1), m.group(2)) if m else None
+
+
+def report_harness_failure(run, stage, log):
+    se = setup_error(log)
+    if se:
+        run.violation(dict(kind='harness-setup-failed', stage=stage, call=se[0], error=se[1][:600],
+                           explanation='a set-up call of the real code (named in `call`) failed while the harness built its world: '
+                                       'either the code under test no longer supports what the harness needs to set up, or the harness '
+                                       'sets up something the code refuses by design (then the harness is wrong)'),
+                      no_input=True, name='replay_setup_%s.json' % stage)
+    else:
+        run.violation(dict(kind='harness-crashed', stage=stage, log=(log or '')[-3000:],
+                           explanation='the harness crashed outside its named set-up calls'), no_input=True,
+                      name='replay_crash_%s.json' % stage)
+
+
 def run_specs(workdir, specs, tag):
     inp = os.path.join(workdir, tag + '_in.jsonl')
     out = os.path.join(workdir, tag + '_out.jsonl')
     vlib.write_jsonl(inp, specs)
     rc, o = vlib.run_harness('c06', ['-mode', 'auth', '-in', inp, '-out', out])
     if rc != 0:
+        LAST_HARNESS_LOG[0] = o
         return None
     return vlib.read_jsonl(out)
 
@@ -218,7 +243,9 @@ def corpus():
                                                m('recv', 2, 'tss-one'), m('recv', 2, 'tss-one', payload='revert'),
                                                m('recv', 3, 'tss-one', payload='cbfail'), m('recv', 3, 'tss-one', flavor='tssproof', payload='cbfail')]),
         # packets that are not for this chain (source = a TSS client under the chain's own name): unknown destination =>
-        # error acknowledgement "dstChain not found"; known destination => relayed onwards, no acknowledgement here
+        # error acknowledgement "dstChain not found"; known destination => relayed onwards, no acknowledgement here.
+        # Since /repo a9e74e1 the CreateClient proposal refuses a self-named client: the harness stores this one the way
+        # InitGenesis does (imported genesis = the only remaining source); the generator no longer produces '@self'.
         dict(id=9008, seed=18, tss=[dict(name='tss-one', acct=2), dict(name='@self', acct=4)],
              steps=[g('@acct4', ['tss-one', A_CHAIN], ['0xSELF-T', '0xSELF-A']), m('recv', 4, '@self', dst='ghost-net', fee_opt=2),
                     m('recv', 4, '@self', dst=B_CHAIN), m('recv', 4, '@self', dst='tss-one', payload='cbfail'),
@@ -446,7 +473,7 @@ def part_b(run):
     for i, sd in enumerate(seeds):
         rows, log = run_contracts(run, sd, 'contracts_%d' % i)
         if rows is None:
-            run.violation(dict(kind='harness-crashed', stage='contracts', log=log[-3000:]), no_input=True)
+            report_harness_failure(run, 'contracts', log)
             return False
         setup = [r for r in rows if r['contract'] < 0]
         rows = [r for r in rows if r['contract'] >= 0]
@@ -565,13 +592,11 @@ def check(run):
     if results is not None:
         cres = run_specs(run.work, corpus(), 'corpus')
         if cres is None:
-            results, log = None, 'corpus run failed'
+            results, log = None, 'corpus run failed\n' + LAST_HARNESS_LOG[0]
         else:
             results = cres + results
     if results is None:
-        run.violation(dict(kind='harness-crashed', stage='auth', log=log[-3000:],
-                           explanation='the part A harness (real chains, relayer registry, signed messages) crashed: the '
-                                       'set-up calls of the real code failed'), no_input=True)
+        report_harness_failure(run, 'auth', log)
         part_b(run)  # the contract enumeration may still locate the cause
         return run.finish()
     BRANCH_COUNTS.clear()
